@@ -469,6 +469,8 @@ func RunRebuild(s *Scen, r *vk.Rand, a, b int, bin, base string, cycles int) {
 		}
 		if s.Prop == "C05" && cyc == 0 && (s.Case/100)%2 == 1 {
 			how = "idlestopkill"
+		} else if s.Prop == "C05" && cyc == 0 {
+			how = "stop"
 		}
 		if how == "shortstop" {
 			// the replica stalls for 1.5x the rpc deadline and then carries on: the controller must have given up on it
@@ -751,6 +753,16 @@ func RunRebuild(s *Scen, r *vk.Rand, a, b int, bin, base string, cycles int) {
 				if cl.C.TryLock() {
 					cl.C.Unlock()
 					if st := cl.C.VerifState(); st.StartSignalled && st.MaxRevReplica != "" {
+						// its start request is held back (see DelayStartMs); it dies once the other replicas have
+						// registered too (or 7 s later), so that nobody is left whose *first* registration would
+						// make the controller look at the dead leader
+						for i := 0; i < 7000 && len(st.Registered) < rf; i++ {
+							time.Sleep(time.Millisecond)
+							if cl.C.TryLock() {
+								cl.C.Unlock()
+								st = cl.C.VerifState()
+							}
+						}
 						for _, p := range cl.Reps {
 							if p.IP == st.MaxRevReplica {
 								p.held = true
@@ -765,6 +777,11 @@ func RunRebuild(s *Scen, r *vk.Rand, a, b int, bin, base string, cycles int) {
 				time.Sleep(300 * time.Microsecond)
 			}
 		}()
+		if killLeader {
+			// the elected replica's start request takes 9 s to reach the controller: it is still in flight when the
+			// replica dies
+			atomic.StoreInt32(&cl.DelayStartMs, 9000)
+		}
 		for _, i := range idx {
 			mon.restarted(cl.Reps[i].Addr)
 			cl.Reps[i].held = false
@@ -774,6 +791,7 @@ func RunRebuild(s *Scen, r *vk.Rand, a, b int, bin, base string, cycles int) {
 		ok := cl.WaitRW(rf/2+1, 240*time.Second)
 		close(stopWatch)
 		<-watchDone
+		atomic.StoreInt32(&cl.DelayStartMs, 0)
 		if leaderDown != nil {
 			s.Res.Count("full_restarts_with_elected_replica_killed_at_signal", 1)
 		}
